@@ -114,6 +114,37 @@ func instrumentFile(path, rel string, next *int, noYield bool) ([]Site, error) {
 		usesSimrt = true
 	}
 
+	// addSyncYields puts a preemption point *before* every statement of a statement
+	// list that performs a synchronisation operation itself (not in a nested block):
+	// an atomic Load/Store/Swap/CompareAndSwap/Add, a sync/atomic call, a pool Get/Put,
+	// a Lock/Unlock. Block-level yields alone cannot separate two such operations in
+	// straight-line code (check-then-act over atomics, unlock-then-publish), and the
+	// race detector says nothing about atomics.
+	addSyncYields := func(list []ast.Stmt, fn string) {
+		if noYield {
+			return
+		}
+		for _, st := range list {
+			switch st.(type) {
+			case *ast.BlockStmt, *ast.CaseClause, *ast.CommClause:
+				continue
+			}
+			if lb, ok := st.(*ast.LabeledStmt); ok {
+				// `L: simrt.Yield(); for ...` would detach the label from its loop
+				_ = lb
+				continue
+			}
+			if !shallowHasSyncOp(st) || isStatsCounter(st) {
+				continue
+			}
+			id := *next
+			*next++
+			sites = append(sites, Site{ID: id, File: rel, Line: fset.Position(st.Pos()).Line, Func: fn, Kind: "sync"})
+			patches = append(patches, patch{off: off(st.Pos()), text: fmt.Sprintf("simrt.Yield(%d); ", id)})
+			usesSimrt = true
+		}
+	}
+
 	var walkFn func(n ast.Node, fn string)
 	walkFn = func(root ast.Node, fn string) {
 		ast.Inspect(root, func(n ast.Node) bool {
@@ -135,6 +166,7 @@ func instrumentFile(path, rel string, next *int, noYield bool) ([]Site, error) {
 				}
 			case *ast.CaseClause:
 				addYield(x.Colon, 1, fn, "case")
+				addSyncYields(x.Body, fn)
 			case *ast.CommClause:
 				addYield(x.Colon, 1, fn, "comm")
 			case *ast.BlockStmt:
@@ -145,6 +177,7 @@ func instrumentFile(path, rel string, next *int, noYield bool) ([]Site, error) {
 						addYield(b.Lbrace, 1, fn, "block")
 					}
 				}
+				addSyncYields(x.List, fn)
 			case *ast.SelectorExpr:
 				if id, ok := x.X.(*ast.Ident); ok && id.Name == "sync" {
 					switch x.Sel.Name {
@@ -204,6 +237,99 @@ func instrumentFile(path, rel string, next *int, noYield bool) ([]Site, error) {
 	}
 	out = append(out, []byte("\nvar _ = simrt.Yield\n")...)
 	return sites, os.WriteFile(path, out, 0o644)
+}
+
+var syncMethods = map[string]bool{"Load": true, "Store": true, "Swap": true, "CompareAndSwap": true, "Add": true, "And": true, "Or": true,
+	"Get": true, "Put": true, "Lock": true, "Unlock": true, "RLock": true, "RUnlock": true, "TryLock": true, "TryRLock": true, "Do": true, "Wait": true, "Done": true}
+
+// shallowHasSyncOp reports whether st itself (its expressions, an if/for/switch
+// header, but not nested blocks or function literals) calls something that looks
+// like a synchronisation operation. Purely syntactic: a false positive only adds a
+// preemption point.
+func shallowHasSyncOp(st ast.Stmt) bool {
+	found := false
+	ast.Inspect(st, func(n ast.Node) bool {
+		if found {
+			return false
+		}
+		switch x := n.(type) {
+		case *ast.BlockStmt, *ast.FuncLit:
+			return false
+		case *ast.CallExpr:
+			if sel, ok := x.Fun.(*ast.SelectorExpr); ok {
+				if id, ok := sel.X.(*ast.Ident); ok && id.Name == "atomic" {
+					found = true
+					return false
+				}
+				if syncMethods[sel.Sel.Name] {
+					// Add/And/Or/Get/Put/Do/Wait/Done are common names: require a receiver
+					// that is a field or variable path, not a package-qualified function
+					switch sel.Sel.Name {
+					case "Load", "Store", "Swap", "CompareAndSwap", "Lock", "Unlock", "RLock", "RUnlock", "TryLock", "TryRLock":
+						found = true
+						return false
+					case "Get", "Put":
+						if strings.Contains(strings.ToLower(exprString(sel.X)), "pool") {
+							found = true
+							return false
+						}
+					case "Add", "And", "Or", "Do", "Wait", "Done":
+						if len(x.Args) <= 1 {
+							low := strings.ToLower(exprString(sel.X))
+							if strings.Contains(low, "once") || strings.Contains(low, "wg") || strings.Contains(low, "count") || strings.Contains(low, "atomic") || strings.Contains(low, "stat") {
+								found = true
+								return false
+							}
+						}
+					}
+				}
+			}
+		}
+		return true
+	})
+	return found
+}
+
+// isStatsCounter recognises `atomic.AddUint64(&e.stats.X, 1)` statements: they are
+// synchronisation operations, but on a write-only statistic; a preemption point
+// before each of the ~150 of them would only dilute the hot-site set.
+func isStatsCounter(st ast.Stmt) bool {
+	es, ok := st.(*ast.ExprStmt)
+	if !ok {
+		return false
+	}
+	call, ok := es.X.(*ast.CallExpr)
+	if !ok || len(call.Args) == 0 {
+		return false
+	}
+	sel, ok := call.Fun.(*ast.SelectorExpr)
+	if !ok {
+		return false
+	}
+	if id, ok := sel.X.(*ast.Ident); !ok || id.Name != "atomic" || !strings.HasPrefix(sel.Sel.Name, "Add") {
+		return false
+	}
+	return strings.Contains(strings.ToLower(exprString(call.Args[0])), "stat")
+}
+
+func exprString(e ast.Expr) string {
+	switch x := e.(type) {
+	case *ast.Ident:
+		return x.Name
+	case *ast.SelectorExpr:
+		return exprString(x.X) + "." + x.Sel.Name
+	case *ast.StarExpr:
+		return exprString(x.X)
+	case *ast.ParenExpr:
+		return exprString(x.X)
+	case *ast.IndexExpr:
+		return exprString(x.X)
+	case *ast.UnaryExpr:
+		return exprString(x.X)
+	case *ast.CallExpr:
+		return exprString(x.Fun)
+	}
+	return ""
 }
 
 func hasDirective(cg *ast.CommentGroup, d string) bool {
